@@ -490,7 +490,56 @@ func c14Changed(u fw.Unit) fw.Result {
 			a.outcome(js(res))
 		})
 	}
-	a.sample(map[string]any{"queries": []string{q1, q2}})
+	// a wrapper over two analytic calls on different columns, fed sparse rows (either column may be absent):
+	// every call sees its own column (absent = NULL)
+	q4 := "SELECT k, (acc_count(v) - acc_count(w)) OVER (PARTITION BY k) AS lead, (acc_sum(v) + acc_sum(w)) OVER (PARTITION BY k) AS tot FROM stream"
+	for L := 1; L <= 4; L++ {
+		sequences(L, 8, func(ix []int) {
+			idx++
+			if idx%sp.Shards != sp.Shard {
+				return
+			}
+			var rows []Row
+			for i, x := range ix {
+				row := Row{"k": []string{"a", "b"}[x/4], "id": i + 1}
+				if (x/2)%2 == 0 {
+					row["v"] = 2.0
+				}
+				if x%2 == 0 {
+					row["w"] = 3.0
+				}
+				rows = append(rows, row)
+			}
+			res, execErr, status, _ := syncEval(q4, rows)
+			a.r.Evaluations++
+			a.r.States++
+			a.r.Transitions += int64(len(rows))
+			a.r.Nontrivial++
+			cs := map[string]any{"sql": q4, "rows": rows}
+			if execErr != "" || status != sched.StatusOK {
+				a.fail("C14|changed|exec", execErr+" "+status.String(), cs, nil, nil)
+				return
+			}
+			cv, cw := map[string]float64{}, map[string]float64{}
+			for i, row := range rows {
+				k := row["k"].(string)
+				if _, ok := row["v"]; ok {
+					cv[k]++
+				}
+				if _, ok := row["w"]; ok {
+					cw[k]++
+				}
+				g := res[i].Row
+				lead, ok1 := num(g["lead"])
+				tot, ok2 := num(g["tot"])
+				if g == nil || !ok1 || lead != cv[k]-cw[k] || !ok2 || tot != 2*cv[k]+3*cw[k] {
+					a.fail("C14|wrapper-two-calls", fmt.Sprintf("%s: row %d gives %s, reference lead=%v tot=%v; rows %s", q4, i+1, js(g), cv[k]-cw[k], 2*cv[k]+3*cw[k], js(rows)), cs, nil, g)
+					return
+				}
+			}
+		})
+	}
+	a.sample(map[string]any{"queries": []string{q1, q2, q3, q4}})
 	return a.result()
 }
 
